@@ -344,4 +344,14 @@ theorem C02_reader_positions_ok_partial {u16 : Bool} {cfg : Cfg} {input : List C
   exact ⟨(posOk_counted_iff _ _ _).mpr ⟨k1, h1⟩, (posOk_counted_iff _ _ _).mpr ⟨k2, h2⟩,
     (posOk_counted_iff _ _ _).mpr ⟨k3, h3⟩⟩
 
+/-- **C02, partial (range starts)**: a node's `Range.Start` is computed as `p.pos.Subtract(<opening delimiter>)` right
+    after the delimiter was consumed; under the reader invariant that is the position before the delimiter and it
+    satisfies the Spec's position clause -/
+theorem C02_start_before_delimiter_partial {input : List Char} {s : PState} {c : Char} {tl : List Char} {u16 : Bool}
+    (h : RInv input s) (hu : s.u16 = u16) (hc : s.consumed = c :: tl) (hn : c ≠ '\n') :
+    ∃ q, s.pos.subtract c u16 = .ok q ∧ posOk (countedPositions input u16) q = true := by
+  obtain ⟨h1, k, h2⟩ := subtract_last_consumed h hc hn
+  rw [hu] at h1 h2
+  exact ⟨_, h1, (posOk_counted_iff _ _ _).mpr ⟨k, h2⟩⟩
+
 end D2V.Text
